@@ -52,6 +52,18 @@ type MapData struct {
 }
 type Tuple struct{ E []Value }
 
+// ChanRef is a channel; its queue lives in the heap cell Obj (a ChanData). The
+// model is an unbounded FIFO: a send never blocks, a receive from an empty open
+// channel (or any operation on a nil channel) blocks forever.
+type ChanRef struct {
+	Obj int
+	Nil bool
+}
+type ChanData struct {
+	Q      []Value
+	Closed bool
+}
+
 // Iter is a map or string iterator (Range/Next); its state lives in the heap
 // cell Obj as an IterData so that forks do not share the position.
 type Iter struct{ Obj int }
@@ -160,7 +172,7 @@ func (in *Interp) zero(t types.Type) Value {
 	case *types.Signature:
 		return Closure{Nil: true}
 	case *types.Chan:
-		return Poison{"chan"}
+		return ChanRef{Obj: -1, Nil: true}
 	case *types.Tuple:
 		e := make([]Value, u.Len())
 		for i := range e {
